@@ -128,6 +128,17 @@ def pool():
     out.append(("userff-b", pdb(pep), "pdb", ["--userff=@DIR@/u.dat", "--usernames=@DIR@/u.names", "--whitespace"], {
         "u.dat": "ALA N -0.3 1.6\nALA CA 0.0 1.8\nALA C 0.5 1.7\nALA O -0.5 1.4\nALA CB 0.3 1.9\nSER N -0.4 1.5\nSER CA 0.4 1.7\n",
         "u.names": "<ff>\n<residue><name>[NC]?ALA</name><useresname>ALA</useresname></residue>\n</ff>\n"}))
+    # neutral termini on flippable / optimisable terminal residues; chains pdb2pqr has to name itself
+    for k, last in enumerate(("ASN", "GLN", "HIS")):
+        nt = dict(chains=[_ch("A", [["LYS", "SER", "THR"][k], "GLY", "SER", last], k=k)],
+                  waters=[dict(anchor=20 + k, dir=[0.3, 1.0, 0.2], d=2.9, chain="W", seq=300)])
+        out.append((f"neutral-termini-{last}", pdb(nt), "pdb", ["--ff=PARSE", "--neutraln", "--neutralc"][: 3 if k != 1 else 2] + (["--neutralc"] if k == 1 else []), {}))
+    blank = dict(chains=[dict(_ch(" ", ["ALA", "ASP", "GLY"]), ter=False), dict(_ch(" ", ["SER", "LYS"], start=4, k=1), shift=[30.0, 0.0, 0.0]),
+                         dict(_ch(" ", ["THR", "GLU", "ALA"], start=20, k=2), shift=[60.0, 0.0, 0.0])], waters=[])
+    out.append(("blank-hidden-keepchain", pdb(blank), "pdb", ["--ff=AMBER", "--keep-chain"], {}))
+    out.append(("blank-hidden-keepchain-ws", pdb(blank), "pdb", ["--ff=CHARMM", "--keep-chain", "--whitespace"], {}))
+    mixed = dict(chains=[_ch("A", ["ARG", "GLY", "TYR"])], na=[dict(id="N", dna=False, seq="GAU", p5=True, newnames=True, start=1)], waters=[])
+    out.append(("mixed-keepchain", pdb(mixed), "pdb", ["--ff=AMBER", "--keep-chain"], {}))
     # failing runs
     out.append(("fail-garbage", "garbage\nnot a structure 1 2 3\n", "pdb", ["--ff=AMBER"], {}))
     out.append(("fail-nonintegral", pdb(dict(chains=[_ch("A", ["ALA", "SER", "GLY"])], waters=[])), "pdb", ["--ff=AMBER", "--assign-only"], {}))
@@ -392,9 +403,25 @@ def fresh_case(draw):
     if draw(st.integers(0, 2)) > 0:
         desc["chains"][1].pop("shift", None)
         desc["chains"][1]["contact"] = draw(strat.contact(tip=True))
-    return dict(part="fresh", desc=desc, ff=draw(st.sampled_from(strat.FFS)),
-                opts=draw(st.sampled_from([[], [], ["--noopt"], ["--nodebump"], ["--whitespace", "--keep-chain"]])),
-                other=draw(st.integers(0, 10**6)))  # fmt: skip
+    ff = draw(st.sampled_from(strat.FFS + ["PARSE"]))
+    opts = list(draw(st.sampled_from([[], [], ["--noopt"], ["--nodebump"], ["--whitespace", "--keep-chain"], ["--keep-chain"]])))
+    layout = draw(st.sampled_from(["plain", "plain", "hidden-ends", "blank-ids", "mixed"]))
+    if layout == "hidden-ends":
+        e2e.add_hidden_ends(draw, desc)  # chains that pdb2pqr has to find and NAME itself
+    elif layout == "blank-ids":
+        desc.pop("order", None)
+        for ch in desc["chains"]:
+            ch["id"], ch["ter"] = " ", True
+        desc["waters"] = []
+    elif layout == "mixed":
+        desc["na"] = draw(e2e.strands(kmax=1))
+        ff = e2e.big_ff(draw, desc)
+    if ff == "PARSE" and draw(st.booleans()):
+        # neutral termini: other patches, other hydrogens, other flip / optimisation candidates
+        opts += draw(st.sampled_from([["--neutraln"], ["--neutralc"], ["--neutraln", "--neutralc"]]))
+        if draw(st.booleans()):
+            desc["chains"][0]["seq"][-1] = draw(st.sampled_from(["ASN", "GLN", "HIS"]))
+    return dict(part="fresh", desc=desc, ff=ff, opts=opts, layout=layout, other=draw(st.integers(0, 10**6)))  # fmt: skip
 
 
 def check_fresh(case):
@@ -421,7 +448,8 @@ def check_fresh(case):
         res.bad("C11:inprocess-vs-fresh", f"generated input: in-process result differs from a fresh process with a random hash seed "
                 f"({case['ff']} {case['opts']})")  # fmt: skip
     res.nontrivial = True
-    res.label(f"ff={case['ff']}", "succeeds" if a1["ok"] else "fails")
+    res.label(f"ff={case['ff']}", "succeeds" if a1["ok"] else "fails", f"layout={case.get('layout', 'plain')}",
+              *[o for o in case["opts"] if o.startswith("--neutral")])  # fmt: skip
     return res
 
 
